@@ -574,3 +574,80 @@ func ZZ_C04_RequestBuilder() {
 	r2.Free()
 	zzverif.Reach("done")
 }
+
+// ---- client -> server streaming --------------------------------------------------------------------------
+
+type zzRecvHandler struct {
+	calls  int
+	got    [][]byte
+	end    bool
+	extra  bool
+	method string
+	res    *zzRef
+}
+
+func (h *zzRecvHandler) Handle(ctx Context, ch ServerChannel) (ref.R[[]byte], status.Status) {
+	h.calls++
+	h.method = ch.(*serverChannel).Method()
+	for i := 0; i < 8; i++ {
+		m, st := ch.Receive(ctx)
+		if st.Code == status.CodeEnd {
+			h.end = true
+			break
+		}
+		if !st.OK() {
+			return nil, st
+		}
+		h.got = append(h.got, append([]byte{}, m...))
+	}
+	// nothing comes after the end
+	if _, ok, st := ch.ReceiveAsync(ctx); ok || st.OK() {
+		h.extra = true
+	}
+	return h.res, status.OK
+}
+
+// ZZ_C04_ClientStream: the request direction. The real client channel sends a request with a
+// symbolic method, NM symbolic messages and the end marker; the frames it put on the wire are served
+// to the real server, whose handler reads the stream: the handler runs once, sees that method,
+// receives exactly those messages in order, then the end, and nothing after it; the client refuses a
+// second request and any message after its end marker.
+func ZZ_C04_ClientStream() {
+	nm := zzverif.Param("NM")
+	method := zzverif.String(1)
+	wire := &zzChan{final: status.OK, wait: make(chan struct{})}
+	c := newChannel(wire, &zzLog{})
+	w := prpc.NewRequestWriter()
+	cl := w.Calls()
+	call := cl.Add()
+	call.Method(method)
+	zzverif.Assume(call.End() == nil && cl.End() == nil)
+	req, err := w.Build()
+	zzverif.Assume(err == nil)
+	ctx := mpx.ClosedContext()
+	zzverif.Assert(c.Request(ctx, req).OK(), "request sent")
+	zzverif.Assert(!c.Request(ctx, req).OK(), "second request on one call accepted")
+	var msgs [][]byte
+	for i := 0; i < nm; i++ {
+		m := zzverif.Bytes(1)
+		msgs = append(msgs, m)
+		zzverif.Assert(c.Send(ctx, m).OK(), "message sent")
+	}
+	zzverif.Assert(c.SendEnd(ctx).OK(), "end sent")
+	zzverif.Assert(!c.Send(ctx, []byte{1}).OK(), "message after the end marker accepted")
+	zzverif.Assert(len(wire.sent) == nm+2, "frames on the wire: request, messages, end")
+
+	h := &zzRecvHandler{res: &zzRef{b: []byte{zzverif.Byte(), 3}}}
+	srv := &server{handler: h, logger: &zzLog{}}
+	sch := &zzChan{in: wire.sent, final: status.End, wait: make(chan struct{})}
+	st := srv.HandleChannel(ctx, sch)
+	zzverif.Assert(st.OK(), "server call")
+	zzverif.Assert(h.calls == 1 && h.method == method, "handler ran once with the request's method")
+	zzverif.Assert(h.end && !h.extra, "stream ends with the end marker and nothing follows")
+	zzverif.Assert(len(h.got) == nm, "number of streamed messages")
+	for i := range msgs {
+		zzverif.Assert(string(h.got[i]) == string(msgs[i]), "streamed message differs or out of order")
+	}
+	zzverif.Assert(len(sch.sent) == 1 && sch.closedSend, "one closing response")
+	zzverif.Reach("done")
+}
